@@ -188,6 +188,15 @@ def build_ci(desc, plan=0):
     return ci
 
 
+def as_loaded(desc):
+    """the description of what an object READ from the written file holds: the documented normalisations applied (no path
+    entries for architectures outside the variant's arch set, no blank paths)"""
+    d = copy.deepcopy(desc)
+    for n in all_nodes(d["variants"]):
+        n["paths"] = dict((cat, kept) for cat, kept in ((cat, dict((a, p) for a, p in table.items() if p and a in n["arches"])) for cat, table in n["paths"].items()) if kept)
+    return d
+
+
 def modify_ci(desc, ci):
     """a valid change of an EXISTING object through its public attributes; returns the description of what it holds afterwards"""
     d = copy.deepcopy(desc)
@@ -195,13 +204,21 @@ def modify_ci(desc, ci):
     d["release"]["name"] = d["release"]["name"] + "x"
     ci.compose.respin, ci.release.name = d["compose"]["respin"], d["release"]["name"]
 
-    def rename(nodes, container):
+    def rename(nodes, container, top):
         for n in nodes:
             n["name"] = n["name"] + "!"
             v = container.variants[n["uid"] if n["uid"] in container.variants else n["id"]]
             v.name = n["name"]
-            rename(n["children"], v)
-    rename(d["variants"], ci.variants)
+            # a whole path table replaced by assignment (the style the VariantPaths docstring shows) ...
+            n["paths"]["os_tree"] = dict((a, "changed/%s/os" % a) for a in n["arches"])
+            v.paths.os_tree = dict(n["paths"]["os_tree"])
+            # ... and a top-level variant gains an architecture it so far only had (unwritten) path entries for
+            foreign = sorted(set(a for t in n["paths"].values() for a in t if a not in n["arches"] and a in gen.ARCH_POOL))
+            if top and foreign:
+                n["arches"] = sorted(n["arches"] + [foreign[0]])
+                v.arches.add(foreign[0])
+            rename(n["children"], v, False)
+    rename(d["variants"], ci.variants, True)
     return d
 
 
